@@ -80,7 +80,7 @@ Config == /\ Ev("Config")
           /\ pats' = PatsOf(Trace[l].sem)
           /\ namesb' = Trace[l].sem.hNamesb
           /\ UNCHANGED <<drift, stats>>
-Skip == /\ l <= Len(Trace) /\ Trace[l].ev \in {"Rejected", "Panic", "Hang", "Block", "EndBlock"} /\ l' = l + 1
+Skip == /\ l <= Len(Trace) /\ Trace[l].ev \in {"Rejected", "Panic", "Hang", "LateChange", "Block", "EndBlock"} /\ l' = l + 1
         /\ UNCHANGED <<sem, pats, namesb, drift, stats>>
 Serve == /\ Ev("Serve")
          /\ LET e == Trace[l] IN
